@@ -278,7 +278,7 @@ pub fn list_strategy(max: usize) -> impl Strategy<Value = ListCase> {
 }
 
 pub fn run(ctx: &mut Ctx) {
-    ctx.rule = "(1) exhaustive: all 3,796 well-formed tokens (13 pockets, 13 XX+, 78 pocket spans, 312 rank pairs in either rank order, 156 XYs+/XYo+, 572 kicker spans, 2,652 ordered card pairs) x weight literals (quick 8, thorough 19, incl. 60-digit literals and two literals a hair off the midpoint of neighbouring f32 values, which a parser going through f64 rounds to the wrong neighbour) - the token must parse and expand to exactly the model's combo set, each once, at the literal's value, also as a one-token range. (2) proptest token lists of 0-12 (thorough 0-40) tokens, plus long lists of up to 320 tokens and lists that first cover all 1326 combos (22+,X2s+,X2o+ for every high card, or all 169 rank pairs, shuffled) and then override parts of them, over a 3-6 rank palette (frequent overlaps), generated weight literals 0.d{1,12} / 0.d{13,70} / 1.0.. / exact f32 midpoints moved a hair up or down (45-50 digits), optional spaces around commas and at the ends, the empty and all-space strings; the parsed range must equal the model map (sequential insert, later wins), weights bit-identical. Non-trivial: tokens all; lists with >= 1 combo covered by two tokens of different weight; distinct by text.".into();
+    ctx.rule = "(1) exhaustive: all 3,796 well-formed tokens (13 pockets, 13 XX+, 78 pocket spans, 312 rank pairs in either rank order, 156 XYs+/XYo+, 572 kicker spans, 2,652 ordered card pairs) x weight literals (quick 8, thorough 19, incl. 60-digit literals and two literals a hair off the midpoint of neighbouring f32 values, which a parser going through f64 rounds to the wrong neighbour) - the token must parse and expand to exactly the model's combo set, each once, at the literal's value, also as a one-token range. (2) proptest token lists of 0-12 (thorough 0-40) tokens, plus long lists of up to 320 tokens and lists that first cover all 1326 combos (22+,X2s+,X2o+ for every high card, or all 169 rank pairs, shuffled) and then override parts of them, over a 3-6 rank palette (frequent overlaps), generated weight literals 0.d{1,12} / 0.d{13,70} / 1.0.. / exact f32 midpoints moved a hair up or down (45-50 digits), optional spaces around commas and at the ends, the empty and all-space strings; the parsed range must equal the model map (sequential insert, later wins), weights bit-identical. (3) long parse histories on one thread: forty one-token ranges, then d-40 parses of a range sharing no combo with them, then forty ranges containing those combos again, d in {255,256,257,65534,65535,65536,65537}. Non-trivial: tokens all; lists with >= 1 combo covered by two tokens of different weight; distinct by text.".into();
     ctx.assumptions = vec![
         "the literal's value is std's str::parse::<f32>() of the literal".into(),
         "spaces only around commas and at the ends; weights only from literals whose value is in [0,1]".into(),
@@ -305,13 +305,61 @@ pub fn run(ctx: &mut Ctx) {
     ctx.require_class("token_lists", "overlap_with_different_weights", cases / 4);
     ctx.require_class("token_lists", "contains_spaces", cases / 4);
     ctx.require_class("token_lists", "empty_list", cases / 100);
+    // long parse histories on one thread (wrap points of 8- and 16-bit call counters); the
+    // replicas at reduced scale keep the short distances only
+    let ds: Vec<u32> = if env_scale() >= 1.0 { vec![255, 256, 257, 65_534, 65_535, 65_536, 65_537] } else { vec![255, 256, 257] };
+    let n = ds.len() as u64;
+    ctx.run_enum_brief(StreamCfg::new("long_parse_histories", HISTORY_CLASSES, n), n, true, |i| ds[i as usize], check_parse_history, |d| json!({"related_parses_apart": d}));
     ctx.extra.insert("exhaustive_over".into(), json!("all 3,796 well-formed tokens x the listed weight literals"));
     if ctx.tier == Tier::Thorough && !ctx.failed() {
         crate::fuzzrun::campaign(ctx, "fz_notation", 3000, 16, 256);
     }
 }
 
+// ---------------------------------------------------------------------------------------------
+// long parse histories on one thread
+
+/// Forty ranges X_j ("<rank pair j>:0.25") are parsed, then `distance - 40` times a range that
+/// shares no combo with any of them, then for each j a range Y_j that contains X_j's combos again
+/// ("<rank pair j>:0.5,32s").  All forty related parses are exactly `distance` parses apart; every
+/// Y_j must hold what its text denotes, whatever was parsed 256 or 65,536 parses earlier.
+pub fn check_parse_history(distance: &u32) -> CheckResult {
+    let d = *distance;
+    vensure!((41..=200_000).contains(&d), "bad-case", "distance outside the domain");
+    let cells: Vec<Cell> = all_cells().into_iter().filter(|c| !(c.hi == 11 && c.lo == 12)).take(40).collect();
+    let extra = Cell { kind: Kind::Suited, hi: 11, lo: 12 };
+    for c in &cells {
+        let r = format!("{}:0.25", c.name()).parse::<espada::hand_range::HandRange>();
+        vensure!(r.is_ok(), "own-notation-rejected", "{}:0.25 is rejected", c.name());
+        std::hint::black_box(r.map(|r| r.card_pairs().len()).unwrap_or(0));
+    }
+    for _ in 0..(d - 40) {
+        std::hint::black_box("32o".parse::<espada::hand_range::HandRange>().map(|r| r.card_pairs().len()).unwrap_or(0));
+    }
+    for c in &cells {
+        let text = format!("{}:0.5,{}", c.name(), extra.name());
+        let Ok(r) = text.parse::<espada::hand_range::HandRange>() else {
+            return Err(Fail::new("history:own-notation-rejected", format!("{:?} is rejected {} parses after {}:0.25 was parsed on the thread", text, d, c.name())));
+        };
+        let mut want = RangeMap::new();
+        for p in c.combos() {
+            want.insert(p, 0.5);
+        }
+        for p in extra.combos() {
+            want.insert(p, 1.0);
+        }
+        if let Some(diff) = diff_maps(&want, &espada_map(&r)) {
+            return Err(Fail::new("history:list-meaning", format!("{:?} parsed {} parses after {}:0.25 had been parsed on the same thread (only ranges sharing no combo with it in between) does not hold what it denotes: {}", text, d, c.name(), diff)));
+        }
+    }
+    Ok(Outcome::new(true, d as u64, if d >= 60_000 { 2 } else { 1 }))
+}
+pub const HISTORY_CLASSES: &[&str] = &["distance_around_256", "distance_around_65536"];
+
 pub fn replay(stream: &str, path: &str, case: &Value) -> i32 {
+    if stream == "long_parse_histories" {
+        return replay_case::<u32>("C05", path, case, check_parse_history);
+    }
     match stream {
         "token_lists" | "long_token_lists" | "full_cover_then_overrides" => replay_case::<ListCase>("C05", path, case, check_list),
         _ => replay_case::<WTok>("C05", path, case, check_token),
